@@ -228,6 +228,22 @@ def families(tier, seed):
     yield Instance("explicit-h", mol(tok("N"), sto("[$]", ["[$]C([H])(C#N)[$]", "[$]CC[$]"], [], "[$]", g0(70.0)), tok("F")), family="chemistry")
     yield Instance("explicit-h-prefix", mol(tok("CC([H])(C)"), sto("[>]", ["[<]C(C#N)([H])[>]"], [], "[<]", g0(60.0)), tok("[H]")), family="chemistry")
     yield Instance("nitrile-branch", mol(tok("N"), sto("[$]", ["[$]CC(C#N)([$])", "[$]CC(Cl)([$])"], [], "[$]", g0(70.0)), tok("F")), family="chemistry")
+    # 14. token topology x role: each role (start end group, capping end group, prefix, suffix, connector, repeat unit)
+    #     with a ring, an aromatic ring, a branched, an unsaturated, a ring-with-bond-symbol-on-the-closure and (thorough) a
+    #     fused-ring token, descriptor on the first atom / on the last atom / in the middle of the token
+    topo = {"ring": "C1CCCCC1", "aromatic": "c1ccccc1", "branched": "C(C)(C)CO", "unsaturated": "C(C#N)=C", "ringbond": "C1CCCC=C1"}
+    if thorough:
+        topo.update({"fused": "C1CCC2CCCCC2C1", "hetero": "c1ccncc1", "spiro-ish": "C1CC1C1CC1"})
+    for tn, body in topo.items():
+        t15 = g0(round(1.5 * mass("[<]CO[>]"), 3))
+        yield Instance(f"topo-endgroups|{tn}", mol(sto("[]", ["[<]CO[>]"], ["[>]" + body, body + "[<]"], "[]", t15)), family="role-topology")
+        yield Instance(f"topo-prefix-suffix|{tn}", mol(tok(body), sto("[>]", ["[<]CO[>]"], [], "[<]", t15), tok(body)), family="role-topology")
+        yield Instance(f"topo-connector|{tn}", mol(tok("N"), sto("[>]", ["[<]CO[>]"], [], "[<]", t15), tok(body), sto("[>]", ["[<]CS[>]"], [], "[<]", g0(50.0)), tok("F")), family="role-topology")
+        yield Instance(f"topo-connector-explicit|{tn}", mol(tok("N"), sto("[>]", ["[<]CO[>]"], [], "[<]", t15), tok("[<]" + body + "[>|0|]"), sto("[>]", ["[<]CS[>]"], [], "[<]", g0(50.0)), tok("F")), family="role-topology")
+        u1 = "[<]C([>])" + body
+        yield Instance(f"topo-unit-side|{tn}", mol(tok("N"), sto("[>]", [u1, "[<]CO[>]"], ["[<]Cl"], "[<]", g0(round(1.2 * mass(u1), 3))), tok("F")), family="role-topology")
+        u2 = "[<]" + body + "[>]"
+        yield Instance(f"topo-unit-backbone|{tn}", mol(tok("N"), sto("[>]", [u2], [], "[<]", g0(round(1.5 * mass(u2), 3))), tok("F")), family="role-topology")
     if thorough:
         yield Instance("chem-mix2", mol(tok("c1ccccc1C"), sto("[>]", ["[<]C1CCC([>])CC1", "[<][Si](C)(C)[>]", "[<]C(Cl)C[>]"], [], "[<]", g0(150.0)), tok("Br")), family="chemistry")
 
